@@ -109,6 +109,15 @@ def build_harness(tags="verif", outname="corr", race=False):
     return rc, out
 
 
+def prepare_alt_build(ab):
+    """build the harness with other build tags and export its path (inherited by every corr run)"""
+    rc, out = build_harness(tags=ab["tags"], outname=ab["outname"])
+    if rc != 0:
+        return out or "build failed"
+    os.environ[ab["env"]] = os.path.join(BIN, ab["outname"])
+    return ""
+
+
 def source_audit():
     """forbidden constructs anywhere in the Lean sources (comments stripped)."""
     hits = []
@@ -389,6 +398,13 @@ def check(pid, tier, seed):
             for f in os.listdir(os.path.join(WORK, "tmp")):
                 if f.startswith("race."):
                     os.remove(os.path.join(WORK, "tmp", f))
+        if eng.get("alt_build"):
+            # the same harness built with other tags, run as a coprocess by the engine (C13: no_memoize)
+            err = prepare_alt_build(eng["alt_build"])
+            if err:
+                bad.append((ename, f"{ename} <{eng['alt_build']['outname']} build failed> {err[-500:]!r}", "E build"))
+                continue
+            penv = dict(os.environ)
         procs = []
         for s in range(shards):
             cases = os.path.join(wd, f"{ename}.{s}.cases")
@@ -549,6 +565,12 @@ def replay(pid, path):
     if rc != 0:
         print(out)
         return 2
+    for eng in props.PROPS[pid]["engines"]:
+        if eng.get("alt_build"):
+            err = prepare_alt_build(eng["alt_build"])
+            if err:
+                print(err)
+                return 2
     lhs = [lhs_of(l.strip()) for l in open(path) if l.strip() and not l.startswith("#")]
     full = corr_exec(lhs, wd)
     verd = judge_lines(full, wd)
